@@ -2348,7 +2348,7 @@ class Attribute(object):
                     assert obj2 is obj and obj._save_pos_ == len(objects_to_save)
                     obj._save_pos_ = None
 
-                if old_val is NOT_LOADED: obj._vals_.pop(attr)
+                if old_val is NOT_LOADED: obj._vals_.pop(attr, None)
                 else: obj._vals_[attr] = old_val
                 for cache_index, old_key, new_key in undo:
                     if new_key is not None: del cache_index[new_key]
